@@ -40,7 +40,7 @@ const c03Schema = `{"name":"TYP","version":"1.0.0","tables":{"T":{"columns":{
  "mus":{"type":{"key":{"type":"uuid"},"value":{"type":"string"},"min":0,"max":"unlimited"}},
  "msu":{"type":{"key":{"type":"string"},"value":{"type":"uuid"},"min":0,"max":"unlimited"}},
  "imm":{"type":"string","mutable":false}
-}}}}`
+},"indexes":[["i"]]}}}`
 
 var (
 	x1 = uu("9", 1)
@@ -222,6 +222,12 @@ func c03Probes(ref *rm.Schema, level int) []dbx.Txn {
 	one := func(v int64) rm.Value { return rm.SetOf(rm.I(v)) }
 	str := func(s string) rm.Value { return rm.SetOf(rm.S(s)) }
 	add("conj", "select i>=1 and b==true", rm.Op{Op: "select", Table: "T", Where: []rm.Cond{{Col: "i", Fn: ">=", Val: one(1)}, {Col: "b", Fn: "==", Val: rm.SetOf(rm.B(true))}}})
+	for _, iv := range []int64{0, 1, 2, -3} {
+		for k, u := range tU {
+			add("conj.index+uuid", fmt.Sprintf("select i==%d and _uuid==t%d", iv, k+1), rm.Op{Op: "select", Table: "T", Where: []rm.Cond{{Col: "i", Fn: "==", Val: one(iv)}, {Col: "_uuid", Fn: "==", Val: rm.SetOf(rm.U(u))}}})
+			add("conj.index+uuid", fmt.Sprintf("select _uuid==t%d and i==%d", k+1, iv), rm.Op{Op: "select", Table: "T", Where: []rm.Cond{{Col: "_uuid", Fn: "==", Val: rm.SetOf(rm.U(u))}, {Col: "i", Fn: "==", Val: one(iv)}}})
+		}
+	}
 	add("conj", "select i<2 and i>0", rm.Op{Op: "select", Table: "T", Where: []rm.Cond{{Col: "i", Fn: "<", Val: one(2)}, {Col: "i", Fn: ">", Val: one(0)}}})
 	add("conj", "delete s==a and ss includes a", rm.Op{Op: "delete", Table: "T", Where: []rm.Cond{{Col: "s", Fn: "==", Val: str("a")}, {Col: "ss", Fn: "includes", Val: str("a")}}}, rm.Op{Op: "select", Table: "T"})
 	add("multi-mutation", "mutate all i+=1, i*=2, ss insert z, ss delete a",
@@ -236,7 +242,7 @@ func c03Probes(ref *rm.Schema, level int) []dbx.Txn {
 		rm.Op{Op: "select", Table: "T", Where: whereUUID(tU[2])},
 		opDelete("T", tU[2]),
 		rm.Op{Op: "select", Table: "T", Where: whereUUID(tU[2])})
-	add("chain", "update all i:=7; select where i==7; delete where i==7; select all",
+	add("chain.transient-index-duplicate", "update all i:=7; select where i==7; delete where i==7; select all",
 		rm.Op{Op: "update", Table: "T", Row: rm.Row{"i": one(7)}},
 		rm.Op{Op: "select", Table: "T", Where: []rm.Cond{{Col: "i", Fn: "==", Val: one(7)}}},
 		rm.Op{Op: "delete", Table: "T", Where: []rm.Cond{{Col: "i", Fn: "==", Val: one(7)}}},
@@ -446,6 +452,25 @@ func runC03(r *ev.Run) {
 		if nontrivial {
 			r.Distinct("nontrivial", e.Pre.Dump()+"|"+e.Txn.Name)
 		}
+		// audit on the live system: reads must not have disturbed anything, the indexed column still finds every row
+		var audit []rm.Op
+		for _, row := range model.New.T["T"] {
+			audit = append(audit, rm.Op{Op: "select", Table: "T", Where: []rm.Cond{{Col: "i", Fn: "==", Val: row["i"]}}})
+		}
+		audit = append(audit, rm.Op{Op: "select", Table: "T"})
+		ares, aerr := e.Sys.TransactRef(audit)
+		amodel := model.New.Transact(audit)
+		if aerr != nil || len(ares) != len(audit) {
+			r.Violation("c03.audit.failed."+class, fmt.Sprintf("%s: follow-up selects failed: %v %s", histStr(e), aerr, ev.J(ares)), mkCase("S-types", e, "audit failed", ""))
+		} else {
+			for i, op := range audit {
+				if k, msg := c03CmpResult(e.Sys, op, ares[i], amodel.Results[i]); k != "" {
+					r.Violation("c03.audit."+k+"."+class, fmt.Sprintf("%s ; then select by the indexed column: %s", histStr(e), msg), mkCase("S-types", e, "audit: "+msg, ""))
+					break
+				}
+			}
+		}
+		r.Add("audits", 1)
 		r.Distinct("outcomes", class)
 		if len(e.Hist) == 1 && strings.HasPrefix(class, "chain") {
 			r.Sample(map[string]interface{}{"history": e.HistName, "txn": e.Txn.Name, "results": e.Sys.CanonResults(sys.OpTables(e.Txn.Ops), e.Res)})
